@@ -8,7 +8,6 @@ import (
 	"os/exec"
 	"path/filepath"
 	"strconv"
-	"strings"
 	"sync"
 	"syscall"
 	"time"
@@ -83,71 +82,94 @@ func NewDir(prefix string) string {
 }
 
 var (
-	portMu    sync.Mutex
-	portsUsed = map[int]bool{}
+	portMu     sync.Mutex
+	portBlocks [][2]int   // [next, end) ranges this process has leased
+	portLocks  []*os.File // lock files kept open for the life of the process
+	portRecent = map[int]bool{}
 )
 
-// FreePort asks the kernel for an unused TCP port on 127.0.0.1 that this
-// process has not handed out before. Another process can still grab the port
-// between this call and the server's own bind; Start detects that by checking
-// who owns the listening socket (ownsListener) and retries.
+const (
+	portBase      = 12000 // below the kernel's ephemeral range, above the repo tests' 10000+
+	portBlockSize = 100
+	portNumBlocks = 200
+)
+
+// leaseBlock takes an exclusive flock on one block of ports so that no other
+// harness process hands out the same ports (a port picked with bind-to-:0 and
+// released can be grabbed by another process before the server binds it; the
+// loser's readiness probe is then answered by a foreign server).
+func leaseBlock() bool {
+	dir := filepath.Join(os.TempDir(), "verif-portlocks")
+	os.MkdirAll(dir, 0o777)
+	start := os.Getpid() % portNumBlocks
+	for i := 0; i < portNumBlocks; i++ {
+		b := (start + i*7) % portNumBlocks
+		f, err := os.OpenFile(filepath.Join(dir, fmt.Sprintf("block-%03d.lock", b)), os.O_CREATE|os.O_RDWR, 0o666)
+		if err != nil {
+			continue
+		}
+		if syscall.Flock(int(f.Fd()), syscall.LOCK_EX|syscall.LOCK_NB) != nil {
+			f.Close()
+			continue
+		}
+		portLocks = append(portLocks, f)
+		lo := portBase + b*portBlockSize
+		portBlocks = append(portBlocks, [2]int{lo, lo + portBlockSize})
+		return true
+	}
+	return false
+}
+
+func canBind(p int) bool {
+	ln, err := net.Listen("tcp", fmt.Sprintf("127.0.0.1:%d", p))
+	if err != nil {
+		return false
+	}
+	ln.Close()
+	return true
+}
+
+// FreePort returns a TCP port on 127.0.0.1 that is currently bindable and is
+// leased to this process (see leaseBlock). Ports are cycled within the leased
+// blocks; a recently handed-out port is not reused until the block wraps.
 func FreePort() int {
 	portMu.Lock()
 	defer portMu.Unlock()
-	for {
-		ln, err := net.Listen("tcp", "127.0.0.1:0")
-		if err != nil {
-			panic(err)
-		}
-		p := ln.Addr().(*net.TCPAddr).Port
-		ln.Close()
-		if portsUsed[p] {
-			continue
-		}
-		if len(portsUsed) > 20000 {
-			portsUsed = map[int]bool{}
-		}
-		portsUsed[p] = true
-		return p
-	}
-}
-
-// ownsListener reports whether process pid holds the socket listening on
-// TCP port (IPv4), by matching the socket inode from /proc/net/tcp against the
-// process's file descriptors. ok=false when /proc cannot answer.
-func ownsListener(pid, port int) (owns bool, ok bool) {
-	b, err := os.ReadFile("/proc/net/tcp")
-	if err != nil {
-		return false, false
-	}
-	want := fmt.Sprintf(":%04X", port)
-	var inodes []string
-	for _, line := range strings.Split(string(b), "\n")[1:] {
-		f := strings.Fields(line)
-		if len(f) < 10 || f[3] != "0A" || !strings.HasSuffix(f[1], want) {
-			continue
-		}
-		inodes = append(inodes, f[9])
-	}
-	if len(inodes) == 0 {
-		return false, true
-	}
-	fds, err := os.ReadDir(fmt.Sprintf("/proc/%d/fd", pid))
-	if err != nil {
-		return false, false
-	}
-	for _, fd := range fds {
-		l, err := os.Readlink(fmt.Sprintf("/proc/%d/fd/%s", pid, fd.Name()))
-		if err != nil {
-			continue
-		}
-		for _, in := range inodes {
-			if l == "socket:["+in+"]" {
-				return true, true
+	for round := 0; round < 3; round++ {
+		for bi := range portBlocks {
+			b := &portBlocks[bi]
+			for b[0] < b[1] {
+				p := b[0]
+				b[0]++
+				if portRecent[p] {
+					continue
+				}
+				if canBind(p) {
+					portRecent[p] = true
+					return p
+				}
 			}
 		}
+		if len(portBlocks) < 8 && leaseBlock() {
+			continue
+		}
+		// every leased block is used up: wrap around
+		portRecent = map[int]bool{}
+		for bi := range portBlocks {
+			portBlocks[bi][0] = portBlocks[bi][1] - portBlockSize
+		}
+		if len(portBlocks) == 0 {
+			break
+		}
 	}
-	return false, true
+	// fall back to a kernel-chosen port
+	ln, err := net.Listen("tcp", "127.0.0.1:0")
+	if err != nil {
+		panic(err)
+	}
+	p := ln.Addr().(*net.TCPAddr).Port
+	ln.Close()
+	return p
 }
 
 // Start launches an in-process server and waits until it answers PING.
@@ -229,13 +251,6 @@ func (s *Srv) waitReady() error {
 			c.Close()
 			// SERVER is refused with "LOADING" until the log is replayed.
 			if err == nil && !(v.IsErr() && len(v.Str) >= 7 && v.Str[:7] == "LOADING") {
-				pid := os.Getpid()
-				if s.cmd != nil {
-					pid = s.cmd.Process.Pid
-				}
-				if owns, ok := ownsListener(pid, s.Port); ok && !owns {
-					return fmt.Errorf("port %d is served by a foreign process (lost the bind race)", s.Port)
-				}
 				return nil
 			}
 		}
